@@ -259,70 +259,83 @@ def run(ctx):
     ids = [v[1] for v in found.values()]
     if len(set(ids)) != len(ids):
         r3.fail('const/ids', 'src/builtin/builtin_permissions.rs', 'two permission constants share an id: %r' % ids)
-    # constructors: new_default_allowed -> new(id,true); new_default_forbidden -> new(id,false); new -> Permission{id,default} in order
-    for fname, val in (('new_default_allowed', True), ('new_default_forbidden', False)):
+    # constructors, lookup and check decided by abstract evaluation (rules/lib/absint.py), whatever their syntactic form:
+    from .lib import absint
+
+    def nothing(tm, vals, env):
+        return absint.UNKNOWN
+    for fname, args, want in (('new', {'_1': 'ID', '_2': True}, ('ID', True)), ('new', {'_1': 'ID', '_2': False}, ('ID', False)),
+                              ('new_default_allowed', {'_1': 'ID'}, ('ID', True)), ('new_default_forbidden', {'_1': 'ID'}, ('ID', False))):
         bs = mir.find('permissions::Permission::' + fname)
-        ok = False
+        got = None
         if len(bs) == 1:
-            for bb, t in bs[0].calls():
-                if strip_generics(t.get('callee') or '') == 'permissions::Permission::new':
-                    k, c = mirq.chase_op(bs[0], t['args'][1])
-                    k0 = op_local(t['args'][0])
-                    ok = (k == 'const' and c.get('bool') is val) and mirq.chase_op(bs[0], t['args'][0]) == ('arg', 1)
-        r3.inst({'fn': fname, 'passes': val}, ok=ok)
+            rs = absint.returns(mir, bs[0], dict(args), nothing)
+            if len(rs) == 1:
+                v = next(iter(rs))
+                if isinstance(v, tuple) and v and v[0] == 'struct':
+                    d = dict(v[2])
+                    got = (d.get('id'), d.get('default'))
+        ok = got == want
+        r3.inst({'fn': 'Permission::' + fname, 'arguments': sorted(args.items()), 'builds (id, default)': got}, ok=ok, kind=(fname, str(sorted(args.items()))))
         if not ok:
-            r3.fail('ctor/%s' % fname, 'src/permissions.rs', '%s does not call Permission::new(id, %s)' % (fname, str(val).lower()))
-    bs = mir.find('permissions::Permission::new')
-    ok = False
-    if len(bs) == 1:
-        for b2, i, j, s in mirq.aggregates(mir, 'permissions::Permission'):
-            if b2 is bs[0]:
-                ops = s['rv']['ops']
-                fields = s['rv']['fields']
-                m = {}
-                for fn_, o in zip(fields, ops):
-                    m[fn_] = mirq.chase_op(b2, o)
-                ok = m.get('id') == ('arg', 1) and m.get('default') == ('arg', 2)
-    r3.inst({'fn': 'Permission::new'}, ok=ok)
-    if not ok:
-        r3.fail('ctor/new', 'src/permissions.rs', 'Permission::new does not store (id, default) from its arguments in order')
-    # PermissionSet::get: result is `*map.get(id).unwrap_or(&permission.default)`
+            r3.fail('ctor/%s' % fname, 'src/permissions.rs', 'Permission::%s%s builds %s, expected id and default = %s' % (fname, sorted(args.items()), got, want))
+    # PermissionSet::get(set, p): the stored flag when the id is present, p.default otherwise
     bs = mir.find('permissions::PermissionSet::get')
-    ok = False
+    okg = len(bs) == 1
     if len(bs) == 1:
-        b = bs[0]
-        names = [strip_generics(t.get('callee') or t.get('decl') or '') for _, t in b.calls()]
-        reads_default = any(e.get('n') == 'default' and e.get('adt') == 'permissions::Permission'
-                            for _, _, s in b.stmts() for _, p in mirq.places_in_stmt(s) for e in p['p'] if isinstance(e, dict))
-        reads_id = any(e.get('n') == 'id' and e.get('adt') == 'permissions::Permission'
-                       for _, _, s in b.stmts() for _, p in mirq.places_in_stmt(s) for e in p['p'] if isinstance(e, dict))
-        ok = reads_default and reads_id and any(n.endswith('Option::unwrap_or') for n in names) and any(n.endswith('HashMap::get') for n in names)
-        r3.inst({'fn': 'PermissionSet::get', 'calls': names}, ok=ok)
-    if not ok:
-        r3.fail('PermissionSet::get', 'src/permissions.rs', 'PermissionSet::get no longer is map.get(id).unwrap_or(&permission.default)')
-    # check_permission: Ok iff permissions.get(permission)
+        for stored in ('absent', True, False):
+            for dflt in (True, False):
+                def field_oracle(pl, env, dflt=dflt):
+                    names = [e.get('n') for e in pl['p'] if isinstance(e, dict)]
+                    if names and names[-1] == 'default':
+                        return dflt
+                    if names and names[-1] == 'id':
+                        return 'ID'
+                    return absint.UNKNOWN
+
+                def oracle(tm, vals, env, stored=stored):
+                    nm = strip_generics(tm.get('callee') or tm.get('decl') or '')
+                    if nm.endswith('HashMap::get') and len(vals) == 2:
+                        key = absint.deref(None, env, vals[1])
+                        if key != 'ID':
+                            return absint.UNKNOWN     # looked up under something that is not the permission's id
+                        if stored == 'absent':
+                            return 'none'
+                        env['#stored'] = stored
+                        return ('some', ('ref', '#stored'))
+                    if nm.endswith('HashMap::contains_key') and len(vals) == 2:
+                        return stored != 'absent'
+                    return absint.UNKNOWN
+                rs = absint.returns(mir, bs[0], {}, oracle, field_oracle)
+                # a returned reference to the stored flag / the default counts as its value
+                vals_ = set()
+                for r in rs:
+                    if isinstance(r, tuple) and r and r[0] == 'ref':
+                        r = stored if r[1] == '#stored' else absint.UNKNOWN
+                    vals_.add(r)
+                want = dflt if stored == 'absent' else stored
+                ok1 = vals_ == {want}
+                okg = okg and ok1
+                r3.inst({'fn': 'PermissionSet::get', 'stored': stored, 'default': dflt, 'returns': sorted(map(str, vals_)), 'documented': want}, ok=ok1, kind=('get', str(stored), dflt))
+    if not okg:
+        r3.fail('PermissionSet::get', 'src/permissions.rs', 'PermissionSet::get no longer returns the stored flag of the permission id, or the permission default when the id was never set')
+    # check_permission: Ok iff permissions.get(its own argument)
     bs = mir.find(CHECK)
-    ok = False
+    okc = len(bs) == 1
     if len(bs) == 1:
         b = bs[0]
-        getbb = [bb for bb, t in b.calls() if strip_generics(t.get('callee') or '') == 'permissions::PermissionSet::get']
-        if len(getbb) == 1:
-            t = b.term(getbb[0])
-            # the switch on the result: true -> Ok, false -> Err(PermissionError)
-            sw = b.term(t['target'])
-            if sw['k'] == 'switch' and op_local(sw['discr']) == t['dest']['l']:
-                false_bb = [tb for v, tb in sw['targets'] if v == '0']
-                true_bb = sw['otherwise']
-                def builds(bb0, variant):
-                    for bb in b.reachable(bb0):
-                        for s in b.blocks[bb]['stmts']:
-                            if s['k'] == 'assign' and s['rv']['k'] == 'agg' and s['rv'].get('adt') == 'std::result::Result' and s['place']['l'] == 0:
-                                return s['rv']['v'] == variant
-                    return False
-                ok = bool(false_bb) and builds(false_bb[0], 'Err') and builds(true_bb, 'Ok')
-                # and the argument passed to get is check_permission's own argument
-                ok = ok and mirq.chase_op(b, t['args'][1]) == ('arg', 2)
-        r3.inst({'fn': 'check_permission'}, ok=ok)
-    if not ok:
-        r3.fail('check_permission/shape', 'src/runtime.rs', 'check_permission is no longer `if permissions.get(p) {Ok} else {Err(PermissionError)}` on its own argument')
+        own_arg = all(mirq.chase_op(b, tm['args'][1]) == ('arg', 2) for bb, tm in b.calls() if strip_generics(tm.get('callee') or '') == 'permissions::PermissionSet::get')
+        for allowed in (True, False):
+            def oracle2(tm, vals, env, allowed=allowed):
+                if strip_generics(tm.get('callee') or '') == 'permissions::PermissionSet::get':
+                    return allowed
+                return absint.UNKNOWN
+            rs = absint.returns(mir, b, {}, oracle2)
+            kinds = {r[0] if isinstance(r, tuple) and r else r for r in rs}
+            viol = {r[1][2] if isinstance(r, tuple) and r[0] == 'err' and isinstance(r[1], tuple) and len(r[1]) > 2 else None for r in rs if isinstance(r, tuple) and r[0] == 'err'}
+            ok1 = (kinds == {'ok'}) if allowed else (kinds == {'err'} and viol == {'PermissionError'})
+            okc = okc and ok1 and own_arg
+            r3.inst({'fn': 'check_permission', 'permission_allowed': allowed, 'returns': sorted(map(str, kinds))}, ok=ok1 and own_arg, kind=('check', allowed))
+    if not okc:
+        r3.fail('check_permission/shape', 'src/runtime.rs', 'check_permission no longer returns Ok exactly when permissions.get(its argument) is true and Err(PermissionError) otherwise')
     r3.need(10)
